@@ -1437,13 +1437,15 @@ fn check_events(input: &str, evs: &[Ev], items: &[String], fname: &str, seed: u6
                 .collect(),
             Err(_) => vec![],
         };
-        match (pos.first(), pos.last()) {
-            (Some(f), Some(l)) => {
-                let c0 = pos.iter().map(|p| p.1).min().unwrap();
-                let c1 = pos.iter().map(|p| p.1).max().unwrap();
-                l.0 >= f.0 && (l.0 - f.0 + 1).saturating_mul(c1 - c0 + 1) <= 1 << 21
-            }
-            _ => true,
+        if pos.is_empty() {
+            true
+        } else {
+            // from_sparse (after D40): rows and columns both span min..max over all cells
+            let r0 = pos.iter().map(|p| p.0).min().unwrap();
+            let r1 = pos.iter().map(|p| p.0).max().unwrap();
+            let c0 = pos.iter().map(|p| p.1).min().unwrap();
+            let c1 = pos.iter().map(|p| p.1).max().unwrap();
+            (r1 - r0 + 1).saturating_mul(c1 - c0 + 1) <= 1 << 21
         }
     };
     let impl_range = if !span_ok {
